@@ -19,6 +19,8 @@ mod address;
 mod ptr;
 mod ptr_impl;
 mod ptr_mut;
+#[cfg(all(koto_verif, feature = "arc"))]
+pub mod verif;
 
 pub use address::Address;
 pub use ptr::*;
